@@ -77,7 +77,11 @@ def main():
     if base["head"] != head:
         print("WARNING: baseline was taken at", base["head"][:9], "HEAD is", head[:9])
     log = {}
+    import re
     demo = meta["demo_run"]
+    # seeders sometimes write absolute paths of their own worktree / output dir into the command
+    demo = re.sub(r"/tmp/seed-out/[A-Za-z0-9_-]+/demo", WT + "/demo", demo)
+    demo = re.sub(r"/tmp/wt-seed-[A-Za-z0-9_-]+", WT, demo)
     # demo directory available as ./demo inside the worktree
     shutil.copytree(os.path.join(outd, "demo"), os.path.join(WT, "demo"))
     rc0, out0 = sh("timeout 1500 sh -c %s" % json.dumps(demo), shell=True)
